@@ -2,7 +2,7 @@
 # tools/seedtest_wt.sh <patch.diff> <C01> [C04 ...] : like seedtest.sh, but without touching /repo: the seeded change
 # is applied in a scratch worktree of /repo HEAD and the checks read the source from there (VF_REPO_SRC).
 set -u
-PATCH="$1"; shift
+PATCH="$(realpath "$1")"; shift
 WT=/tmp/wt_seedtest_$$
 git -C /repo worktree add -q --detach "$WT" HEAD || exit 2
 trap 'git -C /repo worktree remove --force "$WT" >/dev/null 2>&1' EXIT
